@@ -37,6 +37,16 @@ from collections import Counter
 
 from vf.common import iter_cases, case_rng, h64, split, short_tb, tb_sites
 
+
+def safe(fn, *a):
+    """formatting of library objects must never take the shard down (their
+    __repr__ runs library code)"""
+    try:
+        return fn(*a)
+    except Exception as x:      # noqa
+        return f'<{type(x).__name__} while formatting>'
+
+
 LEVEL = 'exploration'
 RULE = ("seeded random graph functions as data (vf/gen_graph.py, profile c01): "
         "0-6 controls (kr/ar/ir/tr/lagged), tagged oscillators/filters/noise/"
@@ -482,8 +492,10 @@ def run_shard(spec, acc):
             site = ':'.join(sites[-1]) if sites else 'graph-function'
             acc.case(sig, nontrivial=sum(fired.values()) > f0)
             acc.violation(f'C01/compile-raises/{type(e).__name__}/{site}',
-                          {'case': i, 'error': f'{type(e).__name__}: {str(e)[:300]}',
-                           'script': gg.script(prog), 'tb': short_tb(e, 5)})
+                          {'case': i, 'error': f'{type(e).__name__}: '
+                                                + safe(lambda: str(e)[:300]),
+                           'script': gg.script(prog),
+                           'tb': safe(short_tb, e, 5)})
             continue
         acc.count('programs_compiled')
         acc.case(sig, nontrivial=sum(fired.values()) > f0)
